@@ -30,7 +30,8 @@ type Facts struct {
 	// fields of each pooled struct type
 	TypeFields map[string][]string
 	// writes to receiver / package-level variables inside process/validate/Parse/Validate
-	Writes []string
+	Writes        []string
+	ClosureWrites []string
 	// argument handed to struct-level tests / posttransforms in struct.validate
 	StructValidateTestArg string
 	StructValidatePostArg string
@@ -325,6 +326,132 @@ func structFields(f *ast.File, name string) []string {
 	return out
 }
 
+// closureWrites lists assignments / inc-dec inside function literals whose target is rooted at a name the
+// literal does not declare itself: a captured variable of the enclosing function or a package-level
+// variable. Test, transform and option closures built at schema-declaration time run on every call, from
+// any goroutine; state they write is shared between calls.
+func closureWrites(fset *token.FileSet, files map[string]*ast.File) []string {
+	var out []string
+	root := func(e ast.Expr) string {
+		for {
+			switch x := e.(type) {
+			case *ast.SelectorExpr:
+				e = x.X
+			case *ast.IndexExpr:
+				e = x.X
+			case *ast.StarExpr:
+				e = x.X
+			case *ast.ParenExpr:
+				e = x.X
+			case *ast.Ident:
+				return x.Name
+			default:
+				return ""
+			}
+		}
+	}
+	for fname, f := range files {
+		if f == nil {
+			continue
+		}
+		for _, d := range f.Decls {
+			fd, ok := d.(*ast.FuncDecl)
+			if !ok || fd.Body == nil {
+				continue
+			}
+			// literals called on the spot (func(){...}(), defer func(){...}()) run inside the enclosing call
+			// and do not outlive it: their writes are the enclosing function's own
+			immediate := map[*ast.FuncLit]bool{}
+			ast.Inspect(fd.Body, func(n ast.Node) bool {
+				if call, ok := n.(*ast.CallExpr); ok {
+					if lit, ok := call.Fun.(*ast.FuncLit); ok {
+						immediate[lit] = true
+					}
+				}
+				return true
+			})
+			ast.Inspect(fd.Body, func(n ast.Node) bool {
+				lit, ok := n.(*ast.FuncLit)
+				if !ok {
+					return true
+				}
+				if immediate[lit] {
+					return true
+				}
+				own := map[string]bool{"_": true}
+				addFields := func(fl *ast.FieldList) {
+					if fl == nil {
+						return
+					}
+					for _, fld := range fl.List {
+						for _, nm := range fld.Names {
+							own[nm.Name] = true
+						}
+					}
+				}
+				ast.Inspect(lit, func(m ast.Node) bool {
+					switch s := m.(type) {
+					case *ast.FuncLit:
+						addFields(s.Type.Params)
+						addFields(s.Type.Results)
+					case *ast.AssignStmt:
+						if s.Tok == token.DEFINE {
+							for _, l := range s.Lhs {
+								if id, ok := l.(*ast.Ident); ok {
+									own[id.Name] = true
+								}
+							}
+						}
+					case *ast.RangeStmt:
+						if s.Tok == token.DEFINE {
+							if id, ok := s.Key.(*ast.Ident); ok {
+								own[id.Name] = true
+							}
+							if id, ok := s.Value.(*ast.Ident); ok {
+								own[id.Name] = true
+							}
+						}
+					case *ast.ValueSpec:
+						for _, nm := range s.Names {
+							own[nm.Name] = true
+						}
+					case *ast.TypeSwitchStmt:
+						if as, ok := s.Assign.(*ast.AssignStmt); ok {
+							for _, l := range as.Lhs {
+								if id, ok := l.(*ast.Ident); ok {
+									own[id.Name] = true
+								}
+							}
+						}
+					}
+					return true
+				})
+				ast.Inspect(lit.Body, func(m ast.Node) bool {
+					switch s := m.(type) {
+					case *ast.AssignStmt:
+						if s.Tok == token.DEFINE {
+							return true
+						}
+						for _, l := range s.Lhs {
+							if r := root(l); r != "" && !own[r] {
+								out = append(out, fmt.Sprintf("%s:%s: %s", filepath.Base(fname), fd.Name.Name, exprString(l)))
+							}
+						}
+					case *ast.IncDecStmt:
+						if r := root(s.X); r != "" && !own[r] {
+							out = append(out, fmt.Sprintf("%s:%s: %s", filepath.Base(fname), fd.Name.Name, exprString(s.X)))
+						}
+					}
+					return true
+				})
+				return false
+			})
+		}
+	}
+	sort.Strings(out)
+	return out
+}
+
 // receiverWrites lists assignments / inc-dec whose target is rooted at the method receiver or at a
 // package-level variable, inside the named methods of every schema file.
 func receiverWrites(fset *token.FileSet, files map[string]*ast.File) []string {
@@ -491,6 +618,23 @@ func extractFacts(repo string) (*Facts, error) {
 		schemaFiles[n] = files[n]
 	}
 	fc.Writes = receiverWrites(fset, schemaFiles)
+	// every non-test source file of the library packages whose closures run during a call
+	closureFiles := map[string]*ast.File{}
+	for _, dir := range []string{"", "internals", "conf"} {
+		names, _ := filepath.Glob(filepath.Join(repo, dir, "*.go"))
+		for _, full := range names {
+			base := filepath.Base(full)
+			if strings.HasSuffix(base, "_test.go") || base == "verif_on.go" {
+				continue
+			}
+			f, err := parseFile(fset, full)
+			if err != nil {
+				return nil, err
+			}
+			closureFiles[filepath.Join(dir, base)] = f
+		}
+	}
+	fc.ClosureWrites = closureWrites(fset, closureFiles)
 
 	sv := findFunc(files["struct.go"], "StructSchema", "validate")
 	isTestCall := func(call *ast.CallExpr) bool {
@@ -826,6 +970,7 @@ func (f *Facts) lean() string {
 		s.WriteString("\n")
 	}
 	s.WriteString("]\n\n")
+	fmt.Fprintf(&s, "/-- writes inside function literals (test / transform / option / coercer closures) to captured or package-level variables -/\ndef closureWrites : List String := %s\n\n", leanStrList(f.ClosureWrites))
 	fmt.Fprintf(&s, "/-- writes rooted at a schema receiver or package variable inside process/validate/Parse/Validate -/\ndef schemaWrites : List String := %s\n\n", leanStrList(f.Writes))
 	srcOf := func(p string) string {
 		switch p {
